@@ -136,21 +136,59 @@ def constTimestep (d : Dict) : Except Exc Rat :=
 /-- `-int(const_timestep)` lines -/
 def timestepLines (c : Rat) : Nat := ((-c).floor).toNat
 
+/-- `paramw['print_block'] = unfix_blockname(paramw['print_block'])` unless it is None -/
+def printBlockUnfixed (dict1 : Dict) : Except Exc Dict :=
+  match dict1.get c!"print_block" with
+  | some (.str s) => .ok (dict1.set c!"print_block" (.str (unfixBlockname s)))
+  | some .none => .ok dict1
+  | none => .error .keyError
+  | some _ => .error .typeError
+
+/-- a blank `print_block` read from the file is None -/
+def printBlockRead (p : Dict) : Except Exc Dict :=
+  match p.get c!"print_block" with
+  | some (.str s) => .ok (if isBlank s then p.set c!"print_block" .none else p)
+  | some .none => .ok p
+  | none => .error .keyError
+  | some _ => .error .generic           -- AttributeError: a number has no strip()
+
+/-- `write_timesteps`: the list is written only for a negative `const_timestep`, in `-int(const_timestep)` lines -/
+def writeTimesteps (r : Rec) (c : Rat) (ts : List Val) : Except Exc (List Str) :=
+  if c < 0 then writeChunks r 8 ts ts.length (timestepLines c) else .ok []
+
+/-- `read_timesteps` -/
+def readTimesteps (rf : ReadFn) (r : Rec) (p : Dict) (c : Rat) (ls : List Str) : Except Exc (List Val × List Str) :=
+  if c ≥ 0 then .ok ([(p.get c!"const_timestep").getD .none], ls)
+  else
+    match readChunks rf r (timestepLines c) ls with
+    | .error e => .error e
+    | .ok (vs, rest) => .ok (nonNone vs, rest)
+
+/-- the default initial conditions at the end of `write_parameters`: lines of four, or one blank line -/
+def writeDefaultIncons (r : Rec) (di : List Val) : Except Exc (List Str) :=
+  if di.length > 0 then writeChunks r 4 di di.length ((di.length + 3) / 4) else .ok [nl []]
+
+/-- … and of `read_parameters`: the first line, then continuation lines until a blank line or a keyword line
+    (section keywords and, since the repair, ENDCY / ENDFI) -/
+def readDefaultIncons (rf : ReadFn) (r : Rec) (old : List Val) (l4 : Str) (ls : List Str) :
+    Except Exc (List Val × Option Str × List Str) :=
+  match readValues rf r l4 with
+  | .error e => .error e
+  | .ok di =>
+    match untilKeyword rf r (allSections ++ [c!"ENDCY", c!"ENDFI"]) ls with
+    | .error e => .error e
+    | .ok (more, nxt, rest) => .ok (trimTrailingNones (old ++ di) ++ more, nxt, rest)
+
 /-- `write_parameters` -/
 def writeParameters (T : Tabs) (d : T2Data) : Except Exc (List Str) := do
   let dict1 := d.parameter.set (c!"_option_str") (.str (digitsOfOptions d.option))
-  let paramw ← match dict1.get (c!"print_block") with
-    | some (.str s) => pure (dict1.set (c!"print_block") (.str (unfixBlockname s)))
-    | some .none => pure dict1
-    | none => .error .keyError
-    | some _ => .error .typeError
+  let paramw ← printBlockUnfixed dict1
   let l1 ← writeValueLine (← param1Rec T d) dict1
   let l2 ← writeValueLine (← T.get c!"param2") paramw
   let c ← constTimestep dict1
-  let ts ← if c < 0 then writeChunks (← T.get c!"timestep") 8 d.timestep d.timestep.length (timestepLines c) else pure []
+  let ts ← writeTimesteps (← T.get c!"timestep") c d.timestep
   let l3 ← writeValueLine (← T.get c!"param3") dict1
-  let n := d.defaultIncons.length
-  let di ← if n > 0 then writeChunks (← T.get c!"default_incons") 4 d.defaultIncons n ((n + 3) / 4) else pure [nl []]
+  let di ← writeDefaultIncons (← T.get c!"default_incons") d.defaultIncons
   pure ([nl (c!"PARAM"), l1, l2] ++ ts ++ [l3] ++ di)
 
 /-- `read_parameters`; returns the line it read ahead (a section keyword line, padded), if any -/
@@ -162,22 +200,14 @@ def readParameters (rf : ReadFn) (T : Tabs) (d : T2Data) (ls : List Str) : Excep
   let p := p.filter (fun e => e.1 != c!"_option_str")
   let (l2, r2) := readline r1
   let p ← readValueLine rf (← T.get c!"param2") p l2
-  let p ← match p.get (c!"print_block") with
-    | some (.str s) => pure (if isBlank s then p.set (c!"print_block") .none else p)
-    | some .none => pure p
-    | none => .error .keyError
-    | some _ => .error .generic           -- AttributeError: a number has no strip()
+  let p ← printBlockRead p
   let c ← constTimestep p
-  let (timestep, r3) ← if c ≥ 0 then pure ([(p.get (c!"const_timestep")).getD .none], r2) else do
-      let (vs, r) ← readChunks rf (← T.get c!"timestep") (timestepLines c) r2
-      pure (nonNone vs, r)
+  let (timestep, r3) ← readTimesteps rf (← T.get c!"timestep") p c r2
   let (l3, r4) := readline r3
   let p ← readValueLine rf (← T.get c!"param3") p l3
   let (l4, r5) := readline r4
-  let di ← readValues rf (← T.get c!"default_incons") l4
-  let di := trimTrailingNones (d.defaultIncons ++ di)
-  let (more, nxt, r6) ← untilKeyword rf (← T.get c!"default_incons") (allSections ++ [c!"ENDCY", c!"ENDFI"]) r5
-  pure ({ d with parameter := p, option, timestep, defaultIncons := di ++ more }, nxt, r6)
+  let (dis, nxt, r6) ← readDefaultIncons rf (← T.get c!"default_incons") d.defaultIncons l4 r5
+  pure ({ d with parameter := p, option, timestep, defaultIncons := dis }, nxt, r6)
 
 def writeMoreOptions (T : Tabs) (d : T2Data) : Except Exc (List Str) := do
   let l ← writeValueLine (← T.get c!"_more_option_str") [(c!"_more_option_str", .str (digitsOfOptions d.moreOption))]
